@@ -320,8 +320,8 @@ def run(ck):
                 ck.count("wrappers evaluated", 1)
                 for basic in (False, True):
                     check_site(ck, name, spec, basic, entry=nd.name)
-    rule_simple(ck)
+    ck.attempt(rule_simple)
     # the property is about every schedule "the network reports feasible", in both modes of the check: the phase-aware sum and the
     # linear relaxation must be the ones C06 establishes (abs on the coefficients, deg2rad, per constraint and period)
     from .c06 import rule_network
-    rule_network(ck)
+    ck.attempt(rule_network)
